@@ -587,7 +587,12 @@ class CoordMatcher(WrappingMatcher):
         self._scale = scale
 
     def _replacement(self, newchild):
-        return self.__class__(newchild, scale=self._scale)
+        m = self.__class__(newchild, scale=self._scale)
+        # The number of terms of the query does not change when replace()
+        # sheds exhausted sub-matchers; counting the terms of the new child
+        # again would rescore the rest of the documents
+        m._termcount = self._termcount
+        return m
 
     def _sqr(self, score, matching):
         # This is the "SQR" (Short Query Ranking) function used by Apple's old
